@@ -37,13 +37,105 @@ func isTypeSet(t types.Type) bool {
 }
 
 type seenLeak struct {
-	upd *ssa.MapUpdate
-	ret *ssa.Return // nil: no leak
+	upd    *ssa.MapUpdate
+	ret    *ssa.Return // nil: no leak
+	lifted int         // > 0: the mark is set by a helper; its callers (that many) unmark
 }
 
 func seenMarks(fns []*ssa.Function) []seenLeak { return seenMarksWith(fns, isTypeSet) }
 
 func seenMarksWith(fns []*ssa.Function, isTypeSet func(types.Type) bool) []seenLeak {
+	// unmarkers: functions that delete from such a set (a `leave` helper); calling or deferring one unmarks
+	unmarker := map[*ssa.Function]bool{}
+	deletes := map[*ssa.Function]bool{} // functions that delete from such a set at all
+	for _, fn := range fns {
+		for _, cs := range callsIn(fn) {
+			if bi, ok := cs.Common.Value.(*ssa.Builtin); ok && bi.Name() == "delete" && len(cs.Common.Args) == 2 && isTypeSet(cs.Common.Args[0].Type()) {
+				deletes[fn] = true
+			}
+		}
+		marks := false
+		for _, b := range fn.Blocks {
+			for _, in := range b.Instrs {
+				if mu, ok := in.(*ssa.MapUpdate); ok && isTypeSet(mu.Map.Type()) {
+					marks = true
+				}
+			}
+		}
+		// a pure `leave`: deletes and never marks
+		if deletes[fn] && !marks {
+			unmarker[fn] = true
+		}
+	}
+	// leakFrom: the first success return reachable from position (b, idx) without passing an unmark
+	leakFrom := func(b *ssa.BasicBlock, idx int, isUnmark func(ssa.Instruction) bool) *ssa.Return {
+		var found *ssa.Return
+		visited := map[*ssa.BasicBlock]bool{}
+		var walk func(bb *ssa.BasicBlock, from int)
+		walk = func(bb *ssa.BasicBlock, from int) {
+			if found != nil {
+				return
+			}
+			for _, x := range bb.Instrs[from:] {
+				if isUnmark(x) {
+					return
+				}
+				if r, ok := x.(*ssa.Return); ok {
+					failing := false
+					if n := len(r.Results); n > 0 && isErrorType(r.Results[n-1].Type()) {
+						e := resolvedResults(r)[n-1] // through the spill slots of a function with defers
+						if nn, _ := knownNonNil(bb, e); nn {
+							failing = true
+						}
+						if isFreshError(e) {
+							failing = true
+						}
+					}
+					if !failing {
+						found = r
+					}
+					return
+				}
+			}
+			for _, s := range bb.Succs {
+				if !visited[s] {
+					visited[s] = true
+					walk(s, 0)
+				}
+			}
+		}
+		walk(b, idx)
+		return found
+	}
+	callsUnmarker := func(x ssa.Instruction) bool {
+		ci, ok := x.(ssa.CallInstruction)
+		if !ok {
+			return false
+		}
+		if _, isGo := x.(*ssa.Go); isGo {
+			return false
+		}
+		cc := ci.Common()
+		if g := cc.StaticCallee(); g != nil && (unmarker[g] || g.Origin() != nil && unmarker[g.Origin()]) {
+			return true
+		}
+		// defer func() { delete(seen, t) }() / defer func() { g.leave(t) }()
+		if d, ok := x.(*ssa.Defer); ok {
+			if mc, ok := d.Call.Value.(*ssa.MakeClosure); ok {
+				if f, ok := mc.Fn.(*ssa.Function); ok {
+					for _, cs := range callsIn(f) {
+						if bi, ok := cs.Common.Value.(*ssa.Builtin); ok && bi.Name() == "delete" {
+							return true
+						}
+						if cs.Static != nil && unmarker[cs.Static] {
+							return true
+						}
+					}
+				}
+			}
+		}
+		return false
+	}
 	var out []seenLeak
 	for _, fn := range fns {
 		for _, b := range fn.Blocks {
@@ -57,72 +149,65 @@ func seenMarksWith(fns []*ssa.Function, isTypeSet func(types.Type) bool) []seenL
 					continue
 				}
 				isUnmark := func(x ssa.Instruction) bool {
-					ci, ok := x.(ssa.CallInstruction)
-					if !ok {
-						if u, ok := x.(*ssa.MapUpdate); ok && u.Map == mu.Map && u.Key == mu.Key {
-							if k, isK := u.Value.(*ssa.Const); isK && k.Value != nil && k.Value.String() == "false" {
+					if u, ok := x.(*ssa.MapUpdate); ok && u.Map == mu.Map && u.Key == mu.Key {
+						if k, isK := u.Value.(*ssa.Const); isK && k.Value != nil && k.Value.String() == "false" {
+							return true
+						}
+					}
+					if ci, ok := x.(ssa.CallInstruction); ok {
+						if _, isGo := x.(*ssa.Go); !isGo {
+							cc := ci.Common()
+							if bi, ok := cc.Value.(*ssa.Builtin); ok && bi.Name() == "delete" && len(cc.Args) == 2 && cc.Args[0] == mu.Map && cc.Args[1] == mu.Key {
 								return true
 							}
 						}
-						return false
 					}
-					if _, isGo := x.(*ssa.Go); isGo {
-						return false
-					}
-					cc := ci.Common()
-					if bi, ok := cc.Value.(*ssa.Builtin); ok && bi.Name() == "delete" && len(cc.Args) == 2 && cc.Args[0] == mu.Map && cc.Args[1] == mu.Key {
-						return true
-					}
-					// defer func() { delete(seen, t) }()
-					if d, ok := x.(*ssa.Defer); ok {
-						if mc, ok := d.Call.Value.(*ssa.MakeClosure); ok {
-							if f, ok := mc.Fn.(*ssa.Function); ok {
-								for _, cs := range callsIn(f) {
-									if bi, ok := cs.Common.Value.(*ssa.Builtin); ok && bi.Name() == "delete" {
+					return callsUnmarker(x)
+				}
+				leak := seenLeak{upd: mu, ret: leakFrom(b, idx+1, isUnmark)}
+				if leak.ret == nil {
+					out = append(out, leak)
+					continue
+				}
+				// the mark outlives this function: if it is a helper that only marks (an `enter`), its callers
+				// have to unmark; a function that marks and unmarks itself has simply missed a path
+				if deletes[fn] {
+					out = append(out, leak)
+					continue
+				}
+				lifted, clean := 0, true
+				var firstBad *ssa.Return
+				for _, g := range fns {
+					for _, gb := range g.Blocks {
+						for gi, gin := range gb.Instrs {
+							ci, ok := gin.(ssa.CallInstruction)
+							if !ok || ci.Common().StaticCallee() != fn || g == fn {
+								continue
+							}
+							lifted++
+							anyUnmark := func(x ssa.Instruction) bool {
+								if cx, ok := x.(ssa.CallInstruction); ok {
+									if bi, ok := cx.Common().Value.(*ssa.Builtin); ok && bi.Name() == "delete" && len(cx.Common().Args) == 2 && isTypeSet(cx.Common().Args[0].Type()) {
 										return true
 									}
 								}
+								return callsUnmarker(x)
 							}
-						}
-					}
-					return false
-				}
-				leak := seenLeak{upd: mu}
-				visited := map[*ssa.BasicBlock]bool{}
-				var walk func(bb *ssa.BasicBlock, from int)
-				walk = func(bb *ssa.BasicBlock, from int) {
-					if leak.ret != nil {
-						return
-					}
-					for _, x := range bb.Instrs[from:] {
-						if isUnmark(x) {
-							return
-						}
-						if r, ok := x.(*ssa.Return); ok {
-							failing := false
-							if n := len(r.Results); n > 0 && isErrorType(r.Results[n-1].Type()) {
-								e := r.Results[n-1]
-								if nn, _ := knownNonNil(bb, e); nn {
-									failing = true
-								}
-								if isFreshError(e) {
-									failing = true
+							if r := leakFrom(gb, gi+1, anyUnmark); r != nil {
+								clean = false
+								if firstBad == nil {
+									firstBad = r
 								}
 							}
-							if !failing {
-								leak.ret = r
-							}
-							return
-						}
-					}
-					for _, s := range bb.Succs {
-						if !visited[s] {
-							visited[s] = true
-							walk(s, 0)
 						}
 					}
 				}
-				walk(b, idx+1)
+				if lifted > 0 && clean {
+					leak.ret = nil
+					leak.lifted = lifted
+				} else if lifted > 0 {
+					leak.ret = firstBad
+				}
 				out = append(out, leak)
 			}
 		}
@@ -136,7 +221,11 @@ func ruleSGSeen(c *Ctx) {
 	for _, l := range seenMarks(P.ModuleFuncs()) {
 		key := fnKey(l.upd.Parent()) + "/mark"
 		if l.ret == nil {
-			c.OK(key, P.pos(l.upd.Pos()), "every successful return after the mark passes the matching delete (direct or deferred)")
+			w := "every successful return after the mark passes the matching delete (direct or deferred)"
+			if l.lifted > 0 {
+				w = fmt.Sprintf("the mark is set by a helper; each of its %d call sites is followed, on every path to a successful return, by the unmark (a delete or a helper that deletes, direct or deferred)", l.lifted)
+			}
+			c.OK(key, P.pos(l.upd.Pos()), w)
 		} else {
 			c.Bad(key, P.pos(l.upd.Pos()), fmt.Sprintf("the mark set here survives the return at %s: the next occurrence of the same type in the same call is taken for a cycle and schema generation fails for a type that is not recursive", P.pos(l.ret.Pos())))
 		}
